@@ -33,6 +33,22 @@ P('C12',
   thorough=dict(cases=300000000, max_size=80, max_seconds=900, fuzz=dict(seconds=60, jobs=4, max_len=128)),
   )
 
+P('C09',
+  technique='property-based testing: generated interleaved/faulted XDS pair streams, differential against a reference reassembly model; event-history oracle for the service decoder',
+  rule='part A: 1-6 XDS packets (class 0-6, type 0-0x7F, 0-40 payload bytes, right/wrong checksum, optional missing start) cut into segments and '
+       'interleaved with caption pairs / stuffing, resumed with continue codes, then 0-2 faults (dropped pair, parity flip, byte replaced); '
+       'part B: a station repeating/changing network name, call letters, title, length, rating through vbi_decode on line 284. '
+       'Non-trivial: >= 2 packets interleaved, or payload >= 31 bytes, or an injected fault, or (B) a value change followed by its repeat; distinct = hash of consumed choices.',
+  level_text='Generated-input search with an explicit oracle: delivered (class,type,length,bytes) sequence of vbi_xds_demux must equal the '
+             'reference reassembly (EIA-608 sec. 9) for the handled classes/types, nothing else may be delivered, unhandled keys may never be '
+             'delivered corrupted; the service decoder is run on the same streams under ASan/UBSan and its NETWORK / PROG_INFO events are '
+             'checked for value fidelity and for "on the repeat, not before". Sampling only; no absence claim.',
+  level_note='Trusted: models/xds_model.h as the reading of EIA-608 section 9; iff-direction applied to classes Current/Future/Channel/Misc and types 0x00-0x17, 0x40-0x47 (what the demux documents as handled); packets with a NUL filler in mid-packet (only producible by faults) are not judged for delivery.',
+  design_ref='DESIGN.md section 2, C09',
+  quick=dict(cases=400000, max_size=600, max_seconds=120),
+  thorough=dict(cases=12000000, max_size=600, max_seconds=1200, fuzz=dict(seconds=240, jobs=8, max_len=1024)),
+  )
+
 NOT_YET = {}
 
 
